@@ -159,6 +159,9 @@ func (r *Runner) wrote(key, val []byte) {
 		r.Written[string(key)] = m
 	}
 	m[string(val)] = true
+	// the key has been handed to the engine: it counts as "ever written" even if its own batch deletes it again
+	// (an intermediate flush may already have put the record on disk)
+	r.Ever[string(key)] = true
 }
 
 func (r *Runner) inc(name string)            { r.Cnt[name]++ }
